@@ -1011,6 +1011,19 @@ func (fr *Frame) namedCell(name string, st *State) *Cell {
 }
 
 func (ex *Exec) nilCheck(fr *Frame, st *State, p PtrV, pos token.Pos) {
+	if p.L.Kind == LChoice {
+		var cs []*Term
+		if a := p.L.alt(true); a.Kind == LHeap {
+			cs = append(cs, Implies(p.L.Sel, Neq(a.Ref, BVi(0, 32))))
+		}
+		if b := p.L.alt(false); b.Kind == LHeap {
+			cs = append(cs, Implies(Not(p.L.Sel), Neq(b.Ref, BVi(0, 32))))
+		}
+		if len(cs) > 0 {
+			ex.check("nil", "", pos, st, And(cs...))
+		}
+		return
+	}
 	if p.L.Kind == LHeap {
 		ex.check("nil", "", pos, st, Neq(p.L.Ref, BVi(0, 32)))
 	}
